@@ -1027,9 +1027,9 @@ func ConvertZToMinMaxAltitudekey(inputIndex int64, inputZoom int64, outputZoom i
 	if err != nil {
 		return 0, 0, err
 	}
-	upperBound, err := convertZToMinAltitudekey(inputIndex+1, inputZoom, outputZoom, zBaseExponent, zBaseOffset)
-	if err != nil {
-		return 0, 0, err
+	upperBound := convertZToUpperAltitudekey(inputIndex+1, inputZoom, outputZoom, zBaseExponent, zBaseOffset)
+	if _, ok := validateIndexExists(upperBound-1, outputZoom, false); !ok {
+		return 0, 0, errors.NewSpatialIdError(errors.InputValueErrorCode, "output index does not exist with given outputZoom, zBaseExponent, and zBaseOffset")
 	}
 
 	// Determine the vertical index/indices to return.
@@ -1045,6 +1045,24 @@ func ConvertZToMinMaxAltitudekey(inputIndex int64, inputZoom int64, outputZoom i
 	} else {
 		return minAltitudeKey, maxAltitudeKey, nil
 	}
+}
+
+// convertZToUpperAltitudekey ボクセル上端(inputIndex: 入力ズームレベルでの排他的上限)をaltitudekeyの排他的上限に変換する。
+//
+// 上端は入力ズームレベルのインデックスとしては存在しない値(最上段ボクセルでは2^inputZoom)になり得るため、入力インデックスの存在チェックは行わない。
+// ボクセル内の高度を取りこぼさないよう、スケーリングの各段階で切り上げる。
+// 出力側の精度が高い場合(outputZoom >= zBaseExponent)はオフセットを正確にスケーリングできるため、
+// 1m単位への丸めを経由せずに一度でスケーリングする。
+func convertZToUpperAltitudekey(inputIndex int64, inputZoom int64, outputZoom int64, zBaseExponent int64, zBaseOffset int64) int64 {
+	ceilShift := func(index int64, shift int64) int64 {
+		return -common.CalculateArithmeticShift(-index, shift)
+	}
+	toOrigin := consts.ZOriginValue - inputZoom
+	toOutput := outputZoom - zBaseExponent
+	if toOutput >= 0 {
+		return ceilShift(inputIndex, toOrigin+toOutput) + common.CalculateArithmeticShift(zBaseOffset, toOutput)
+	}
+	return ceilShift(ceilShift(inputIndex, toOrigin)+zBaseOffset, toOutput)
 }
 
 func convertZToMinAltitudekey(inputIndex int64, inputZoom int64, outputZoom int64, zBaseExponent int64, zBaseOffset int64) (int64, error) {
